@@ -1,9 +1,231 @@
 import Lean.Data.Json
-/-! Line-protocol handler for property C08 (model side of the correspondence). -/
+import SpoxModel.Model.Inline
+/-! Line-protocol handler for property C08 (model side of the correspondence).
+
+Request  `{"model": M, "call": {"npos": n, "kws": [..]}, "argTypes": [ty|"untyped"..]?, "ctx": C?,
+           "pinned": bool?}`  or  `{"eval": G, "vals": [int..]}`.
+Response: the outcome of every stage of `inline(m)(call)` + `_Inline.to_onnx` on the model. -/
 namespace Drv.C08
-open Lean
+open Lean Inline
+
+def parseLit (j : Json) : Except String Lit := do
+  let a ← j.getArr?
+  let k ← (a.getD 0 Json.null).getStr?
+  let i ← (a.getD 1 Json.null).getNat?
+  if k == "d" then return .dense i else return .sparse i
+
+def parseInit (j : Json) : Except String (String × Lit) := do
+  let a ← j.getArr?
+  let n ← (a.getD 0 Json.null).getStr?
+  let k ← (a.getD 1 Json.null).getStr?
+  let i ← (a.getD 2 Json.null).getNat?
+  return (n, if k == "d" then .dense i else .sparse i)
+
+mutual
+partial def parseGraph (j : Json) : Except String Graph := do
+  let inputs ← j.getObjValAs? (List String) "inputs"
+  let initsJ ← j.getObjValAs? (Array Json) "inits"
+  let inits ← initsJ.toList.mapM parseInit
+  let nodesJ ← j.getObjValAs? (Array Json) "nodes"
+  let nodes ← nodesJ.toList.mapM parseNode
+  let outputs ← j.getObjValAs? (List String) "outputs"
+  let vi ← j.getObjValAs? (List String) "vi"
+  return .mk inputs inits nodes outputs vi
+partial def parseNode (j : Json) : Except String Node := do
+  let name ← j.getObjValAs? String "name"
+  let domain ← j.getObjValAs? String "domain"
+  let op ← j.getObjValAs? String "op"
+  let attrs ← j.getObjValAs? String "attrs"
+  let litJ := (j.getObjVal? "lit").toOption.getD Json.null
+  let lit ← if litJ.isNull then pure none else (some <$> parseLit litJ)
+  let ins ← j.getObjValAs? (List String) "ins"
+  let outs ← j.getObjValAs? (List String) "outs"
+  let subsJ ← j.getObjValAs? (Array Json) "subs"
+  let subs ← subsJ.toList.mapM parseGraph
+  return .mk name ⟨domain, op, attrs, lit⟩ ins outs subs
+end
+
+def parseDim (j : Json) : Dim :=
+  match j with
+  | .null => .unk
+  | .str s => .sym s
+  | _ => match j.getNat? with
+    | .ok n => .known n
+    | .error _ => .unk
+
+partial def parseTy (j : Json) : Except String Ty := do
+  if j.isNull then return .unknown
+  match j.getObjVal? "t" with
+  | .ok t =>
+    let a ← t.getArr?
+    let e ← (a.getD 0 Json.null).getNat?
+    let sh := a.getD 1 Json.null
+    if sh.isNull then return .tensor e none
+    let ds ← sh.getArr?
+    return .tensor e (some (ds.toList.map parseDim))
+  | .error _ =>
+    match j.getObjVal? "seq" with
+    | .ok t => return .seq (← parseTy t)
+    | .error _ =>
+      match j.getObjVal? "opt" with
+      | .ok t => return .opt (← parseTy t)
+      | .error _ => throw "bad type"
+
+def litJson : Lit → Json
+  | .dense i => toJson [Json.str "d", toJson i]
+  | .sparse i => toJson [Json.str "s", toJson i]
+
+mutual
+partial def graphJson : Graph → Json
+  | .mk inputs inits nodes outputs vi => Json.mkObj [
+      ("inputs", toJson inputs),
+      ("inits", Json.arr (inits.map fun p =>
+        Json.arr #[Json.str p.1, Json.str (if p.2.isDense then "d" else "s"),
+          toJson (match p.2 with | .dense i => i | .sparse i => i)]).toArray),
+      ("nodes", Json.arr (nodes.map nodeJson).toArray),
+      ("outputs", toJson outputs), ("vi", toJson vi)]
+partial def nodeJson : Node → Json
+  | .mk name op ins outs subs => Json.mkObj [
+      ("name", name), ("domain", op.domain), ("op", op.opType), ("attrs", op.attrs),
+      ("lit", match op.lit with | none => Json.null | some l => litJson l),
+      ("ins", toJson ins), ("outs", toJson outs),
+      ("subs", Json.arr (subs.map graphJson).toArray)]
+end
+
+def dimJson : Dim → Json
+  | .known n => toJson n
+  | .sym s => Json.str s
+  | .unk => Json.null
+
+def tyJson : Ty → Json
+  | .unknown => Json.null
+  | .tensor e sh => Json.mkObj [("t", Json.arr #[toJson e,
+      match sh with | none => Json.null | some ds => Json.arr (ds.map dimJson).toArray])]
+  | .seq t => Json.mkObj [("seq", tyJson t)]
+  | .opt t => Json.mkObj [("opt", tyJson t)]
+
+def errJson : Err → Json
+  | .typeError => "TypeError" | .valueError => "ValueError"
+  | .scopeError => "ScopeError" | .buildError => "BuildError"
+
+def slotJson : Slot → Json
+  | .pos i => Json.arr #[Json.str "pos", toJson i]
+  | .kw n => Json.arr #[Json.str "kw", Json.str n]
+  | .dflt n => Json.arr #[Json.str "dflt", Json.str n]
+
+def parseSpace (j : Json) : Except String Space := do
+  let used ← j.getObjValAs? (List String) "used"
+  let cj ← j.getObjValAs? (Array Json) "counters"
+  let cs ← cj.toList.mapM fun p => do
+    let a ← p.getArr?
+    let b ← (a.getD 0 Json.null).getStr?
+    let c ← (a.getD 1 Json.null).getNat?
+    pure (b, c)
+  return ⟨used, cs⟩
+
+/-- current counters only (the first entry for each base) -/
+def dedupCounters : List (String × Nat) → List (String × Nat) → List (String × Nat)
+  | [], acc => acc.reverse
+  | p :: ps, acc => if acc.any (·.1 == p.1) then dedupCounters ps acc else dedupCounters ps (p :: acc)
+
+def spaceJson (s : Space) : Json := Json.mkObj [
+  ("used", toJson s.used),
+  ("counters", Json.arr ((dedupCounters s.counters []).map fun p =>
+    Json.arr #[Json.str p.1, toJson p.2]).toArray)]
+
+/-! a small integer interpreter for the evaluator correspondence (`V = Int`) -/
+def intSem : OpSem Int := fun op ins bodies =>
+  match op.opType, ins with
+  | "Identity", [some a] => some [some a]
+  | "Neg", [some a] => some [some (-a)]
+  | "Abs", [some a] => some [some (Int.ofNat a.natAbs)]
+  | "Add", [some a, some b] => some [some (a + b)]
+  | "Sub", [some a, some b] => some [some (a - b)]
+  | "Mul", [some a, some b] => some [some (a * b)]
+  | "Max", [some a, some b] => some [some (max a b)]
+  | "Less", [some a, some b] => some [some (if a < b then 1 else 0)]
+  | "Constant", [] => match op.lit with
+    | some (.dense i) => some [some (Int.ofNat i - 1000)]
+    | some (.sparse i) => some [some (Int.ofNat i - 1000)]
+    | none => none
+  | "If", [some c] =>
+    (match bodies with
+     | [b0, b1] =>
+       -- subgraphs come in attribute order; the attribute key records which is which
+       if op.attrs.startsWith "else_branch" then (if c ≠ 0 then b1 [] else b0 [])
+       else (if c ≠ 0 then b0 [] else b1 [])
+     | _ => none)
+  | _, _ => none
+
+def intLit : Lit → Int
+  | .dense i => Int.ofNat i - 1000
+  | .sparse i => Int.ofNat i - 1000
+
+def handleEval (req : Json) : Except String Json := do
+  let g ← parseGraph (← req.getObjVal? "eval")
+  let vals ← req.getObjValAs? (List Int) "vals"
+  match evalModel intSem intLit g vals with
+  | none => return Json.mkObj [("out", Json.null)]
+  | some outs => return Json.mkObj [("out", Json.arr (outs.map fun o =>
+      match o with | none => Json.null | some v => toJson v).toArray)]
+
+def handleInline (req : Json) : Except String Json := do
+  let mj ← req.getObjVal? "model"
+  let g ← parseGraph (← mj.getObjVal? "graph")
+  let hasF ← mj.getObjValAs? Bool "functions"
+  let inT ← (← mj.getObjValAs? (Array Json) "inTypes").toList.mapM parseTy
+  let outT ← (← mj.getObjValAs? (Array Json) "outTypes").toList.mapM parseTy
+  let m : Model := ⟨g, hasF, [], inT, outT⟩
+  let pinned := ((req.getObjValAs? Bool "pinned").toOption).getD false
+  match prepare m with
+  | .error e => return Json.mkObj [("prepare", errJson e)]
+  | .ok p =>
+    let mut out : List (String × Json) := [("prepare", Json.mkObj [
+      ("inNames", toJson p.inNames), ("defaults", toJson p.defaults),
+      ("outNames", toJson p.outNames),
+      ("inTypes", Json.arr (p.inTypes.map tyJson).toArray),
+      ("outTypes", Json.arr (p.outTypes.map tyJson).toArray),
+      ("graph", graphJson p.graph)])]
+    match req.getObjVal? "call" with
+    | .error _ => pure ()
+    | .ok cj =>
+      let npos ← cj.getObjValAs? Nat "npos"
+      let kws ← cj.getObjValAs? (List String) "kws"
+      let posT ← (← cj.getObjValAs? (Array Json) "posTypes").toList.mapM parseTy
+      let kwT ← (← cj.getObjValAs? (Array Json) "kwTypes").toList.mapM parseTy
+      let r := if pinned then bindPinned p.inNames p.defaults ⟨npos, kws⟩
+               else bind p.inNames p.defaults ⟨npos, kws⟩
+      out := out ++ [("bind", match r with
+        | .error e => errJson e
+        | .ok slots => Json.arr (slots.map slotJson).toArray)]
+      if !pinned then
+        out := out ++ [("call", match call p ⟨npos, kws⟩ posT (kws.zip kwT) with
+          | .error e => errJson e
+          | .ok slots => Json.arr (slots.map slotJson).toArray)]
+    match req.getObjVal? "ctx" with
+    | .error _ => pure ()
+    | .ok xj =>
+      let c : Ctx := {
+        nodeName := ← xj.getObjValAs? String "nodeName"
+        argNames := ← xj.getObjValAs? (List String) "argNames"
+        resNames := ← xj.getObjValAs? (List String) "resNames"
+        var := ← parseSpace (← xj.getObjVal? "var")
+        node := ← parseSpace (← xj.getObjVal? "node") }
+      let r := if pinned then toOnnxPinned c p.graph else toOnnx c p.graph
+      out := out ++ [("emit", match r with
+        | .error e => errJson e
+        | .ok em => Json.mkObj [
+            ("nodes", Json.arr (em.nodes.map nodeJson).toArray),
+            ("var", spaceJson em.var), ("node", spaceJson em.node)])]
+    return Json.mkObj out
 
 /-- One request (a JSON value) in, one response (a JSON value) out. -/
-def handle (_req : Json) : Json := Json.mkObj [("error", "unimplemented")]
+def handle (req : Json) : Json :=
+  let r := match req.getObjVal? "eval" with
+    | .ok _ => handleEval req
+    | .error _ => handleInline req
+  match r with
+  | .ok j => j
+  | .error e => Json.mkObj [("error", e)]
 
 end Drv.C08
